@@ -55,6 +55,9 @@ BASE_FILES = [
     ("outside/secret.txt", "OUT"), ("outside/a.liquid", "OUT"), ("outside/sub/c.liquid", "OUT"),
     ("outside/secret.liquid", "OUT"), ("secret.liquid", "OUT"), ("a.liquid", "OUT"),
     ("outside/t.liquid", "OUT"),     # $HOME is outside/ during a run: what '~/t.liquid' must NOT reach
+    # decoys where a search path spelled '<sandbox>/late:site/tpl' ends up when it is split at the ':'
+    ("late/a.liquid", "OUT"), ("late/noext", "OUT"), ("late/sub/c.liquid", "OUT"),
+    ("site/tpl/a.liquid", "OUT"), ("site/tpl/b.txt", "OUT"), ("site/tpl/sub/c.liquid", "OUT"),
     ("pkgs/@PKG@/templates/p.liquid", "PIN"), ("pkgs/@PKG@/templates/sub/q.liquid", "PIN"),
     ("pkgs/@PKG@/templates/noext", "PIN"), ("pkgs/@PKG@/templates/r.txt", "PIN"),
     ("pkgs/@PKG@/more/m.liquid", "PIN2"),
@@ -308,7 +311,7 @@ class C22:
         sc = {
             "config": config, "loader": loader, "pkg": pkg, "absent": absent,
             "roots": ["root", "root2"] if two else ["root"],
-            "root_shape": rng.weighted([("abs", 6), ("relative", 2), ("via_link", 2), ("cwd", 2), ("link_dotdot", 1.5)]),
+            "root_shape": rng.weighted([("abs", 6), ("relative", 2), ("via_link", 2), ("cwd", 2), ("link_dotdot", 1.5), ("late_colon", 1)]),
             "cwd_form": rng.choice([".", "", "./"]),
             "compose": rng.weighted([(None, 7), ("choice", 2), ("factory", 1)]),
             "segments": 2 if rng.chance(0.15) else 1,     # the requests run in two successive event loops
@@ -551,6 +554,11 @@ class C22:
             given = list(sc["roots"])            # relative to the current directory (the sandbox, see run())
         elif shape == "via_link":
             given = [tree.fs.path("lnk_" + r) for r in sc["roots"]]   # a symlink to the search directory
+        elif shape == "late_colon":
+            # a search directory whose name contains the PATH separator and which does not exist yet when
+            # the loader is constructed (it is deployed afterwards, see below); one root only
+            bases = bases[:1]
+            given = [tree.fs.path("late:site/tpl")]
         elif shape == "link_dotdot":
             given = [tree.fs.path("outside/up_%s/.." % r) for r in sc["roots"]]
         elif shape == "cwd":
@@ -576,6 +584,9 @@ class C22:
         else:
             ld = CachingFileSystemLoader(sp, ext=sc["ext"], reject_symlinks=sc["reject_symlinks"],
                                          auto_reload=sc["auto_reload"], capacity=sc["capacity"])
+        if shape == "late_colon":
+            os.makedirs(tree.fs.path("late:site"), exist_ok=True)
+            os.symlink(bases[0], tree.fs.path("late:site/tpl"), target_is_directory=True)
         return ld, bases, sc["ext"], sc["reject_symlinks"]
 
     def _run_world(self, sc, tree, plan, res):
